@@ -196,7 +196,7 @@ def run_cfg(ctx, cfg):
             ok, how = (True, "return") if dl == 0 else result_is_used(b, dl)
             ctx.ob("result-must-use" + tag, b.key, "result of %s" % strip_generics(f["path"]).split("::")[-1], ok,
                    where_call(b, i), how)
-    ctx.floor("result-must-use" + tag, "cancellation-carrying Result call sites", n_res, 15)
+    ctx.floor("result-must-use" + tag, "cancellation-carrying Result call sites", n_res, 10)
 
     # ---- rule 5: short circuit in encode ---------------------------------------------------
     enc = body_by_key(crate, ENC + "encode", coroutine=True)
